@@ -101,6 +101,10 @@ class C11(Hist1Prop):
         n = len(src["bins"])
         if outs[1]["regs"][0] != src:
             fails.append("source_modified: indexing modified the source histogram")
+        from ..impl1 import edges_consistent
+        for i, r in enumerate(outs[1]["regs"]):
+            if r is not None and not edges_consistent(r["bins"], r.get("_numpy_bins")):
+                fails.append(f"edges_differ: register {i}: numpy_bins {r['_numpy_bins']} are not the edges of its bins {r['bins']}")
         ret = outs[1]["ret"]
         arr = np.arange(n)
         if op["op"] == "invalid":
